@@ -72,6 +72,28 @@ func main() {
 				fmt.Printf("%s\t%s\tweight=%d fault=%v\t%s\n", p, pr.Name, pr.Weight, pr.Fault, pr.Doc)
 			}
 		}
+	case "c20child":
+		if len(os.Args) < 3 {
+			usage()
+		}
+		bz, err := os.ReadFile(os.Args[2])
+		if err != nil {
+			fmt.Fprintln(os.Stderr, err)
+			os.Exit(2)
+		}
+		spec := &props.C20ChildSpec{}
+		if err := json.Unmarshal(bz, spec); err != nil {
+			fmt.Fprintln(os.Stderr, err)
+			os.Exit(2)
+		}
+		prints, err := props.C20Child(spec)
+		if err != nil {
+			fmt.Fprintln(os.Stderr, err)
+			os.Exit(2)
+		}
+		for _, l := range prints {
+			fmt.Println(l)
+		}
 	case "selftest-determinism":
 		os.Exit(cmdSelftestDeterminism(os.Args[2:]))
 	default:
